@@ -158,6 +158,28 @@ EXTRA4 = {
  'C19': 'A declared count len(<anything>) is compared with the block it announces; the scale / missing-code parsers accept what the writer emits.',
  'C20': 'Written pieces have width intervals: caller data cut to N is 0..N wide unless padded first.',
 }
+# clauses added after the fifth held-out wave
+EXTRA5 = {
+ 'C01': 'No loop body reads the loop variable of an earlier, finished loop; a `K not in A.dimensions` guard adds K to A itself.',
+ 'C02': 'The default type of a copied variable is the complete dtype of the source, not its one-letter code.',
+ 'C03': 'The level edges the IOAPI wrapper recomputes keep the order and number of the new layers (no unique / sort / reversal).',
+ 'C04': 'The default stack dimension is the unlimited one, a time-like name only as fallback; names imported from the standard library inside a stack method exist (defect fixed in /repo 0b4a2a2).',
+ 'C05': 'close / __del__ / __exit__ of a class never close an object that was handed to its constructor.',
+ 'C06': 'Thresholds of mask() are compared as given (no conversion to the data type); with the default of `missing`, setCoords registers every key; copies keep the complete dtype.',
+ 'C07': 'The data of every variable are written on every path through the converter; attribute copies are skipped only on the documented conditions.',
+ 'C08': 'The land-use reader records the style under the name the writer asks for; a single element of a flat map is not re-interpreted with an explicit byte order; a text attribute whose length sizes a record is stored as decoded; a Julian date that received a day carry is normalised for the year end (defect fixed in /repo 2c22140).',
+ 'C09': '.nbytes of an emitted array is a symbolic item-size product in the frame algebra.',
+ 'C10': 'The length tested for a multiple of 16 is that of VAR-LIST itself, not of a stripped copy; names appended to VAR-LIST never include TFLAG / ETFLAG.',
+ 'C12': 'datetime64 precision, all of hours / minutes / seconds of HHMMSS reach the decoded time, time stores keep the decoded value; in 365/366-day calendars the time of day of the reference date enters the shift on every path (defect fixed in /repo 1d2cf32).',
+ 'C13': 'The step identifier compares the named date and time columns; the step count divides by the records per step.',
+ 'C14': 'The first-step probe and the strided time flags use the same records-per-step constant.',
+ 'C15': 'No isMine hands the decision to the isMine of a reader class that is not its base class.',
+ 'C16': 'Range checks use both ends of the coordinate; exact membership does not assume uniqueness; date2num reads the calendar under the CF attribute name.',
+ 'C17': 'A local bound to an array attribute of the receiver is not updated in place; no shortcut around the weight matrix for equal grids.',
+ 'C18': 'Column tiles, rewind copies and the three-block window of the bpch readers agree with the writer.',
+ 'C19': 'The independent-variable header line names the variable written as first column; an encoding fixed by the writer is the default encoding of the reader.',
+ 'C20': 'The checksum is the byte sum modulo 255; the YYMMDDHHFF stamp is cut to eight characters and parsed as %y%m%d%H.',
+}
 NA = {}
 
 CLAIMED.update({
@@ -189,6 +211,8 @@ def main():
             note = note + ' ' + EXTRA2[pid]
         if pid in EXTRA4:
             note = note + ' ' + EXTRA4[pid]
+        if pid in EXTRA5:
+            note = note + ' ' + EXTRA5[pid]
         note = note + ' Generic baseline-relative rules over the anchored files (pncstatic/generic.py): unused parameters, read mutable defaults, collapsed element-wise choices, uncalled methods, one-shot iterators, module and class state, truthiness defaults of numeric options, broken swaps, un-adapted sibling statements. Clauses added wave by wave are listed in DESIGN section 4.'
         mod = importlib.import_module('pncstatic.rules.%s' % pid.lower())
         checks.append(dict(
